@@ -196,3 +196,11 @@ func c12r6(r *R) {
 	r.Ob("C12.R6", "instances").Check(len(rows) >= 30, "expected >= 30 transport flow-control rows, found %d", len(rows))
 	checkTable(r, "C12.R6", "h2_flow_transport", rows, "transport flow-control step")
 }
+
+func init() {
+	p := registry["C12"]
+	p.Rules = append(p.Rules, ruleDef{"C12.R7", func(r *R) {
+		forkSiblingRule(r, "C12.R7", "flow.go", "writesched.go", "server.go", "transport.go")
+	}})
+	wantRefs("C12")
+}
